@@ -511,6 +511,10 @@ class FnTr:
                     out.append(n)
         return out
 
+    def rebound(self, body):
+        """names a block REBINDS (as opposed to appends to): what was known about the old value is lost"""
+        return {x.id for st in body for x in ast.walk(st) if isinstance(x, ast.Name) and isinstance(x.ctx, ast.Store)}
+
     def no_escape(self, body):
         for st in body:
             for x in ast.walk(st):
@@ -625,6 +629,9 @@ class FnTr:
             names = self.assigned(st.body, envb)
             if st.target.id in names or not names:
                 raise Unsupported(st, 'loop that rebinds its variable / has no effect')
+            if any(isinstance(x, ast.Name) and x.id in names for x in ast.walk(st.iter)):
+                # Python iterates over the LIVE object: appending to it inside the loop is not a fold over a snapshot
+                raise Unsupported(st, 'the loop body changes a variable of the iterated expression')
 
             def fin(e2):
                 for n in names:
@@ -633,8 +640,9 @@ class FnTr:
                 return self.state(names)
             body = self.stmts(st.body, envb, fin)
             env2 = dict(env)
+            rb = self.rebound(st.body)
             for n in names:                      # what the body binds besides is not visible after the loop
-                env2[n] = Var(env[n].ty, nonempty=env[n].nonempty)
+                env2[n] = Var(env[n].ty, nonempty=env[n].nonempty and n not in rb)
             return 'let %s := %s.foldl (fun %s %s =>\n%s) %s\n%s' % (
                 self.state(names), it, self.state(names), mangle(st.target.id), ind(body), self.state(names),
                 self.stmts(rest, env2, k))
@@ -695,6 +703,8 @@ class FnTr:
         names = self.assigned(body, envb)
         if not names:
             raise Unsupported(st, 'loop without effect')
+        if lst in names:
+            raise Unsupported(st, 'the loop body changes the list it walks (%s)' % lst)
 
         def fin(e2):
             for n in names:
@@ -703,8 +713,9 @@ class FnTr:
             return self.state(names)
         text = self.stmts(body, envb, fin)
         env2 = dict(env)
+        rb = self.rebound(body)
         for n in names:
-            env2[n] = Var(env[n].ty, nonempty=env[n].nonempty)
+            env2[n] = Var(env[n].ty, nonempty=env[n].nonempty and n not in rb)
         return 'let %s := (PyRtC06.pairsFrom1 %s).foldl (fun %s (%s, %s) =>\n%s) %s\n%s' % (
             self.state(names), mangle(lst), self.state(names), mangle(va), mangle(vn), ind(text), self.state(names),
             self.stmts(rest, env2, k))
@@ -761,8 +772,9 @@ class FnTr:
         ok = self.stmts(body, env_ok, fin)
         bad = self.stmts(h.body, env, fin)
         env2 = dict(env)
+        rb = self.rebound(st.body + h.body)
         for n in names:
-            env2[n] = Var(env[n].ty, nonempty=env[n].nonempty)
+            env2[n] = Var(env[n].ty, nonempty=env[n].nonempty and n not in rb)
         return 'let %s := (match PyRtC06.hexGet %s.%s %s with\n  | some %s =>\n%s\n  | none =>\n%s)\n%s' % (
             self.state(names), TABLES_NS, self.hexmaps[sub.value.id], key, hv, ind(ok, 2), ind(bad, 2),
             self.stmts(rest, env2, k))
